@@ -43,7 +43,7 @@ abbrev LZMA_FULL_BARRIER : Nat := 4
 /-- common.h: `#define LZMA_ACTION_MAX ((unsigned int)(LZMA_FULL_BARRIER))` -/
 abbrev LZMA_ACTION_MAX : Nat := LZMA_FULL_BARRIER
 
-/-- `lzma_internal.sequence` (common.h). Constructor order = enum order (checked by a Gen bridge). -/
+/-- `lzma_internal.sequence` (common.h). The numbering of the C enum is private and NOT relied upon: probe and harness map the tree's ISEQ_* constants symbolically. -/
 inductive Seq where
   | run | syncFlush | fullFlush | finish | fullBarrier | end_ | error
   deriving DecidableEq, Repr, Inhabited
@@ -53,6 +53,12 @@ def Seq.code : Seq → Nat
 
 def Seq.ofCode : Nat → Seq
   | 0 => .run | 1 => .syncFlush | 2 => .fullFlush | 3 => .finish | 4 => .fullBarrier | 5 => .end_ | _ => .error
+
+/-- Symbolic name used on the wire by the harness and the driver (the numbering of the private C enum is not
+    part of the property; the harness maps the tree's own ISEQ_* constants to these names). -/
+def Seq.name : Seq → String
+  | .run => "run" | .syncFlush => "sync" | .fullFlush => "fullflush" | .finish => "finish"
+  | .fullBarrier => "barrier" | .end_ => "end" | .error => "error"
 
 /-- The action a flush/finish state is locked to (`none` for RUN, END, ERROR). -/
 def Seq.lockedAction : Seq → Option Nat
